@@ -50,25 +50,94 @@ Definition new_image (t : Z) (d : list N) : list N := header t d ++ data_written
 Definition overlay (img F : list N) : list N := img ++ skipn (length img) F.
 Definition save_file (F : list N) (t : Z) (d : list N) : list N := overlay (new_image t d) F.
 
+(* ---------- write_all with short writes ----------
+   write_all(fd,buf,n): while(n > 0) { res = write(fd,buf,n); ...; n -= res; buf += res; }   (buf += res since /repo 74c63d5;
+   before that the pointer was not advanced and the next call sent the BEGINNING of the buffer again).
+   adv = true: the loop as it is now; adv = false: the loop before the repair, kept only to state the regression Examples.
+   acc lists how many bytes the successive write() calls of one save accept at most (0 or exhausted list = everything asked).
+   Result: the chunks written, in order, and the rest of acc for the next write_all of the same save. *)
+Fixpoint write_all_gen (adv : bool) (fuel : nat) (buf : list N) (n : nat) (acc : list nat) : list (list N) * list nat :=
+  match fuel with
+  | O => ([], acc)
+  | S fu =>
+      if (n =? 0)%nat then ([], acc)
+      else match acc with
+           | [] => ([firstn n buf], [])
+           | k :: acc' =>
+               let w := if (k =? 0)%nat || (n <=? k)%nat then n else k in
+               let (rest, acc'') := write_all_gen adv fu (if adv then skipn w buf else buf) (n - w) acc' in
+               (firstn w buf :: rest, acc'')
+           end
+  end.
+Definition short_chunks_gen (adv : bool) (t : Z) (d : list N) (acc : list nat) : list (list N) :=
+  let (h, acc1) := write_all_gen adv 16 (header t d) 16 acc in
+  let dw := data_written d in
+  let (b, _) := write_all_gen adv (length dw) dw (length dw) acc1 in h ++ b.
+Definition write_all_short := write_all_gen true.
+Definition short_chunks := short_chunks_gen true.
+Definition short_image_gen (adv : bool) (t : Z) (d : list N) (acc : list nat) : list N := concat (short_chunks_gen adv t d acc).
+Definition short_image := short_image_gen true.
+Definition save_file_short (F : list N) (t : Z) (d : list N) (acc : list nat) : list N := overlay (short_image t d acc) F.
+(* before the repair *)
+Definition save_file_stuck (F : list N) (t : Z) (d : list N) (acc : list nat) : list N := overlay (short_image_gen false t d acc) F.
+
 (* ---------- read_from_file ---------- *)
 Definition hdr_deadline (f : list N) : Z := dec_s64 (firstn 8 f).
 Definition hdr_crc (f : list N) : N := le_val (firstn 4 (skipn 8 f)).
 Definition hdr_size (f : list N) : N := le_val (firstn 4 (skipn 12 f)).
+(* the tests read_from_file makes before it looks at the size field: 8 bytes readable, deadline, 16 bytes readable *)
+Definition hdr_readable (now : Z) (f : list N) : bool :=
+  negb (length f <? 8)%nat && negb (hdr_deadline f <? now)%Z && negb (length f <? 16)%nat.
+(* fstat(fd): st_size < 16 || uint64_t(st_size) - 16 < size  ->  return false, BEFORE the buffer is allocated
+   (repair c47a865; the loader needs the file length here, it is the length of the byte list) *)
+Definition size_fits (f : list N) : bool := negb (length f <? 16)%nat && negb (N.of_nat (length f - 16) <? hdr_size f).
 Definition read_from_file (now : Z) (f : list N) : option (Z * list N) :=
   if (length f <? 8)%nat then None                      (* read_all(&f_timeout,8) fails *)
   else if (hdr_deadline f <? now)%Z then None           (* f_timeout < time(0) *)
   else if (length f <? 16)%nat then None                (* read_all(&crc,4) or read_all(&size,4) fails *)
   else
     let size := hdr_size f in
-    if 2 ^ 31 <=? size then
-      (* read_all(fd,&buffer.front(),size): the count is an int, negative here, nothing is read and
-         the call succeeds; the buffer keeps its zero fill *)
+    if negb (size_fits f) then None                     (* the record does not fit into the file: nothing allocated *)
+    else if 2 ^ 31 <=? size then
+      (* (a file of at least 2 GiB + 16 bytes) read_all(fd,&buffer.front(),size): the count is an int, negative
+         here, nothing is read and the call succeeds; the buffer keeps its zero fill *)
       let data := repeat 0 (N.to_nat size) in
       if crc32 data =? hdr_crc f then Some (hdr_deadline f, data) else None
-    else if N.of_nat (length f - 16) <? size then None  (* fewer than size bytes available *)
     else
+      (* read_all cannot fail any more: size bytes are there; trailing bytes beyond 16 + size are ignored *)
       let data := firstn (N.to_nat size) (skipn 16 f) in
       if crc32 data =? hdr_crc f then Some (hdr_deadline f, data) else None.
+
+(* ---------- read_all with short reads ----------
+   read_all(fd,buf,n) has the same loop (buf += res since 74c63d5): every read() deposits what it got where the previous one
+   stopped; before the repair (adv = false) at the START of the buffer.  Modelled for the data buffer only
+   (std::vector<char>(size,0), zero-filled).  acc = how many bytes the successive read() calls for the data return at most
+   (0 or exhausted = everything asked).  None = a read() returned 0 (end of file). *)
+Fixpoint read_all_gen (adv : bool) (fuel : nat) (done buf src : list N) (n : nat) (acc : list nat) : option (list N) :=
+  match fuel with
+  | O => if (n =? 0)%nat then Some (done ++ buf) else None
+  | S fu =>
+      if (n =? 0)%nat then Some (done ++ buf)
+      else
+        let k := match acc with [] => n | k :: _ => if (k =? 0)%nat then n else Nat.min k n end in
+        let w := Nat.min k (length src) in
+        if (w =? 0)%nat then None
+        else if adv then read_all_gen adv fu (done ++ firstn w src) (skipn w buf) (skipn w src) (n - w) (tl acc)
+        else read_all_gen adv fu done (firstn w src ++ skipn w buf) (skipn w src) (n - w) (tl acc)
+  end.
+Definition read_from_file_gen (adv : bool) (now : Z) (f : list N) (acc : list nat) : option (Z * list N) :=
+  if negb (hdr_readable now f) then None
+  else
+    let size := hdr_size f in
+    if negb (size_fits f) then None
+    else if 2 ^ 31 <=? size then read_from_file now f
+    else
+      let n := N.to_nat size in
+      match read_all_gen adv n [] (repeat 0 n) (skipn 16 f) n acc with
+      | Some data => if crc32 data =? hdr_crc f then Some (hdr_deadline f, data) else None
+      | None => None
+      end.
+Definition read_from_file_short := read_from_file_gen true.
 
 (* read_timestamp (used by gc) *)
 Definition timestamp_ok (now : Z) (f : list N) : bool :=
@@ -124,6 +193,8 @@ Definition store (nm : name) (f : list N) (d : dir) : dir := (nm, f) :: remove n
 
 Definition save (nm : name) (t : Z) (data : list N) (d : dir) : dir :=
   store nm (save_file (match lookup nm d with Some f => f | None => [] end) t data) d.
+Definition save_short (nm : name) (t : Z) (data : list N) (acc : list nat) (d : dir) : dir :=
+  store nm (save_file_short (match lookup nm d with Some f => f | None => [] end) t data acc) d.
 Definition crash_save (nm : name) (t : Z) (data : list N) (ps : list N) (d : dir) : dir :=
   store nm (crash_file (match lookup nm d with Some f => f | None => [] end) (new_image t data) ps) d.
 (* load: a file that cannot be read is unlinked *)
@@ -135,6 +206,14 @@ Definition load (now : Z) (nm : name) (d : dir) : option (Z * list N) * dir :=
               | None => (None, remove nm d)
               end
   end.
+Definition load_short (now : Z) (nm : name) (acc : list nat) (d : dir) : option (Z * list N) * dir :=
+  match lookup nm d with
+  | None => (None, d)
+  | Some f => match read_from_file_short now f acc with
+              | Some r => (Some r, d)
+              | None => (None, remove nm d)
+              end
+  end.
 Definition isxdigit (c : N) : bool :=
   ((48 <=? c) && (c <=? 57)) || ((97 <=? c) && (c <=? 102)) || ((65 <=? c) && (c <=? 70)).
 Definition valid_name (nm : name) : bool := (length nm =? 32)%nat && forallb isxdigit nm.
@@ -142,12 +221,16 @@ Definition gc (now : Z) (d : dir) : dir :=
   filter (fun kf => negb (valid_name (fst kf)) || timestamp_ok now (snd kf)) d.
 
 (* ---------- the allocation in read_from_file ----------
-   std::vector<char> buffer(size,0) is allocated from the size field before anything is known about the file length.
-   With limit bytes of memory available the allocation throws std::bad_alloc, which leaves load() as an exception:
-   nothing is returned and nothing is unlinked.  The tests that come before it: 8 bytes readable, deadline, 16 bytes. *)
+   std::vector<char> buffer(size,0) is allocated from the size field, after the header tests and (since c47a865) after
+   the size field has been compared with the file length.  alloc_size = the number of bytes requested (0 = the
+   allocation is not reached).  With limit bytes of memory available a larger request throws std::bad_alloc, which
+   leaves load() as an exception: nothing is returned and nothing is unlinked. *)
 Inductive lres := LNone | LSome (t : Z) (d : list N) | LExc.
-Definition alloc_fails (limit : N) (now : Z) (f : list N) : bool :=
-  negb (length f <? 16)%nat && negb (hdr_deadline f <? now)%Z && (limit <? hdr_size f).
+Definition alloc_size (now : Z) (f : list N) : N :=
+  if hdr_readable now f && size_fits f then hdr_size f else 0.
+Definition alloc_fails (limit : N) (now : Z) (f : list N) : bool := limit <? alloc_size now f.
+(* the reader as it was before the repair (allocation straight from the size field): kept only to state the regression *)
+Definition alloc_size_unchecked (now : Z) (f : list N) : N := if hdr_readable now f then hdr_size f else 0.
 Definition load_limited (limit : N) (now : Z) (nm : name) (d : dir) : lres * dir :=
   match lookup nm d with
   | Some f =>
